@@ -5,7 +5,8 @@ package hx
 // Two kinds of operation, both run against the real code (no MongoDB connection is needed to
 // compile):
 //
-//	{"op":"has","expr":E,"elem":D,"neg":b}
+//	{"op":"has","expr":E,"elem":D,"neg":b,"marks":[[name,D]…]}   (marks optional: the traveler's marks,
+//	    addressed by keys "$name.field"; the pipeline document keeps them under "marks.<name>")
 //	    impl: {"doc": canonical form of mongo.convertHasExpression(E, neg)  (hook), or "panic",
 //	           "core": engine/logic.MatchesHasExpression(D, E) XOR neg}
 //	    the Lean driver emits the MODEL's document (compared syntactically) and the core verdict, and
@@ -227,6 +228,13 @@ func C14Exec(op map[string]interface{}) (obs map[string]interface{}) {
 			de := ElemToDE(op["elem"].(map[string]interface{}))
 			var t gdbi.Traveler = &gdbi.BaseTraveler{}
 			t = t.AddCurrent(de)
+			// "marks": [[name, elem], …] — what as(name) stored on the way
+			if ms, ok := op["marks"].([]interface{}); ok {
+				for _, m := range ms {
+					p := m.([]interface{})
+					t = t.AddMark(p[0].(string), ElemToDE(p[1].(map[string]interface{})))
+				}
+			}
 			obs["core"] = logic.MatchesHasExpression(t, expr) != neg
 		}()
 		return obs
@@ -342,6 +350,96 @@ func C14Gen(r *Run) {
 					"expr": map[string]interface{}{"c": c, "k": k, "v": Tag(a)}})
 				r.Dist["has-keys"]++
 			}
+		}
+	}
+	// 2b. keys that address a mark: the traveler carries marks a and b (scalar values), the key
+	// ranges over current-element and mark namespaces; the emitted field name must be
+	// "marks.<ns>.<path>" and (driver) the filter read on the pipeline document must select what
+	// the core matcher keeps.  Values are chosen so that current, a and b differ per key.
+	c14MarkKeys := []string{"x", "$.x", "$a.x", "$b.x", "$a._gid", "$a._label", "_gid", "$b._gid", "$a.n.y", "$b.missing",
+		"$__current__.x", "$a._from", "$b._to", "$a._data.x", "$a._gid.z"}
+	mkElem := func(gid, label string, data map[string]interface{}) map[string]interface{} {
+		return map[string]interface{}{"gid": gid, "label": label, "data": Tag(data)}
+	}
+	markSets := [][]interface{}{}
+	for _, trip := range [][3]interface{}{{1.0, 2.0, 3.0}, {"abc", 1.0, "b"}, {nil, "v2", true}, {2.0, 2.0, 2.0}, {3.0, nil, 1.0}} {
+		cur := map[string]interface{}{"n": map[string]interface{}{"y": 7.0}}
+		ma := map[string]interface{}{"n": map[string]interface{}{"y": 8.0}}
+		mb := map[string]interface{}{}
+		if trip[0] != nil {
+			cur["x"] = trip[0]
+		}
+		if trip[1] != nil {
+			ma["x"] = trip[1]
+		}
+		if trip[2] != nil {
+			mb["x"] = trip[2]
+		}
+		ea := mkElem("v2", "A", ma)
+		eb := mkElem("e3", "B", mb)
+		eb["from"] = "v2"
+		eb["to"] = "v1"
+		markSets = append(markSets, []interface{}{mkElem("v1", "L", cur), []interface{}{[]interface{}{"a", ea}, []interface{}{"b", eb}}})
+	}
+	markArgs := []interface{}{1.0, 2.0, 3.0, "v2", "v1", "A", "abc", nil, 8.0, []interface{}{1.0, 2.0}, []interface{}{"v2", "A", 3.0}, []interface{}{0.0, 2.5}}
+	for _, k := range c14MarkKeys {
+		for _, c := range []string{"eq", "neq", "gt", "lte", "within", "without", "contains", "between"} {
+			for _, a := range markArgs {
+				for si, ms := range markSets {
+					for _, neg := range []bool{false, true} {
+						if neg && si > 1 {
+							continue
+						}
+						op := map[string]interface{}{"op": "has", "elem": ms[0], "marks": ms[1], "neg": neg,
+							"expr": map[string]interface{}{"c": c, "k": k, "v": Tag(a)}}
+						emit(op)
+						r.Dist["has-markkeys"]++
+						r.Count("has-markkeys:" + k)
+						if r.Dist["has-markkeys"] == 400 {
+							r.AddSample(op)
+						}
+					}
+				}
+			}
+		}
+	}
+	// a mark named by the key but absent from the traveler (outside the property: "marks defined
+	// before use"); only the emitted field name and the core verdict are compared
+	for _, k := range []string{"$c.x", "$c._gid"} {
+		for _, a := range []interface{}{1.0, "", nil} {
+			emit(map[string]interface{}{"op": "has", "elem": markSets[0][0], "marks": markSets[0][1], "neg": false,
+				"expr": map[string]interface{}{"c": "eq", "k": k, "v": Tag(a)}})
+			r.Dist["has-undefined-mark"]++
+		}
+	}
+	// Boolean combinations mixing namespaces, seeded
+	nmix := 1500
+	if r.Tier == "thorough" {
+		nmix = 20000
+	}
+	var genM func(d int) map[string]interface{}
+	genM = func(d int) map[string]interface{} {
+		if d == 0 || r.Rng.Intn(3) == 0 {
+			return map[string]interface{}{"c": Pick(r.Rng, []string{"eq", "neq", "gt", "gte", "lt", "within", "without", "contains", "inside"}),
+				"k": Pick(r.Rng, []string{"x", "$.x", "$a.x", "$b.x", "$a._gid", "$a._label", "_gid", "$b._label", "$a.n.y"}),
+				"v": Tag(Pick(r.Rng, markArgs))}
+		}
+		switch r.Rng.Intn(3) {
+		case 0:
+			return map[string]interface{}{"not": genM(d - 1)}
+		case 1:
+			return map[string]interface{}{"and": []interface{}{genM(d - 1), genM(d - 1)}}
+		default:
+			return map[string]interface{}{"or": []interface{}{genM(d - 1), genM(d - 1)}}
+		}
+	}
+	for i := 0; i < nmix; i++ {
+		ms := markSets[r.Rng.Intn(len(markSets))]
+		op := map[string]interface{}{"op": "has", "elem": ms[0], "marks": ms[1], "neg": r.Rng.Intn(4) == 0, "expr": genM(1 + r.Rng.Intn(3))}
+		emit(op)
+		r.Dist["has-markkeys-random"]++
+		if i == 0 {
+			r.AddSample(op)
 		}
 	}
 	// 3. Boolean combinations, exhaustive to depth 2 over a small leaf set
